@@ -230,6 +230,15 @@ class C04Energy(Monitor):
                 yield Violation("C04", f"drove a positive distance without expending energy ({kind})", {"vehicle": v.id, "km": v.distance_traveled_km - b.distance_traveled_km, "level_before": lvl0, "level_after": lvl})
             a_idle = sname(v) == "Idle" and v.vehicle_state.idle_duration > (b.vehicle_state.idle_duration if sname(b) == "Idle" and b.vehicle_state.instance_id == v.vehicle_state.instance_id else 0)
             a_queue = sname(v) == "ChargeQueueing" and sname(b) == "ChargeQueueing" and b.vehicle_state.instance_id == v.vehicle_state.instance_id
+            if a_queue:
+                # a vehicle a controller sent to queue for a plug it can never use (wrong energy type / not installed) does not
+                # idle in the queue: once that plug is free its update tries to start charging, is refused, and nothing else
+                # happens in the step. That is the controller's error (same exclusion as C06 (iii)), not an energy defect.
+                st_ = after.stations.get(v.vehicle_state.station_id)
+                cs = st_.state.get(v.vehicle_state.charger_id) if st_ is not None else None
+                if cs is None or not mech.valid_charger(cs.charger):
+                    a_queue = False
+                    h.stats["c04_queue_excluded_unusable_plug"] += 1
             if (a_idle or a_queue) and lvl0 > 0 and dt > 0 and not lvl < lvl0:
                 yield Violation("C04", f"idled for a positive time without expending energy ({kind})", {"vehicle": v.id, "activity": sname(v), "level_before": lvl0, "level_after": lvl})
             if v.geoid != b.geoid and not lvl > 0:
@@ -797,21 +806,20 @@ class C09Atomic(Monitor):
                     yield Violation("C09", f"side effects of accepted {itype} incomplete: {v.key}", v.detail)
 
     # ---- part 1b: a rejected instruction does not disturb the others of a batch
-    def batch(self, h: History, before, after, instructions, only_accepted_result) -> Iterable[Violation]:
-        from hv.canon import canon
+    def batch(self, h: History, before, after, instructions, one_at_a_time_result) -> Iterable[Violation]:
+        """`after` = apply_instructions(before, batch); `one_at_a_time_result` = the same instructions (distinct vehicles)
+        applied one by one in the same order, each of which is all-or-nothing by part 1. They must agree modulo instance
+        ids: acceptance of one instruction may depend on what earlier ones took (the last plug), never on a later or an
+        earlier *rejection*."""
+        from hv.canon import canon, first_diff
 
-        rejected = [i for i in instructions if before.vehicles[i.vehicle_id].vehicle_state.instance_id == after.vehicles[i.vehicle_id].vehicle_state.instance_id]
-        for i in rejected:
-            if before.vehicles[i.vehicle_id] != after.vehicles[i.vehicle_id]:
-                yield Violation("C09", f"rejected {type(i).__name__} in a batch changed its vehicle", {"instruction": repr(i)})
+        rejected = [i for i in instructions if before.vehicles[i.vehicle_id].vehicle_state.instance_id == one_at_a_time_result.vehicles[i.vehicle_id].vehicle_state.instance_id]
         if rejected and len(rejected) < len(instructions):
             h.flag("batch_with_rejection")
         a = canon({f: getattr(after, f) for f in STATE_FIELDS})
-        b = canon({f: getattr(only_accepted_result, f) for f in STATE_FIELDS})
+        b = canon({f: getattr(one_at_a_time_result, f) for f in STATE_FIELDS})
         if a != b:
-            from hv.canon import first_diff
-
-            yield Violation("C09", "batch result differs from applying only its accepted instructions", {"first_difference": first_diff(a, b), "instructions": [repr(i) for i in instructions]})
+            yield Violation("C09", "a batch of instructions gives another result than the same instructions one at a time", {"first_difference": first_diff(a, b), "instructions": [repr(i) for i in instructions], "rejected_one_at_a_time": [repr(i) for i in rejected]})
 
     # ---- part 2: one instruction per vehicle per step, last generated wins, driver has the final word
     def after_step(self, h: History, before, after, events):
@@ -830,6 +838,7 @@ class C09Atomic(Monitor):
         reports: Dict[str, list] = collections.defaultdict(list)
         for e in _events(events, "INSTRUCTION"):
             reports[e["vehicle_id"]].append(e)
+        winners = []
         for vid in sorted(mid.vehicles.keys()):
             mine = emitted.get(vid, [])
             stack = tuple(reversed(mine)) or None
@@ -859,6 +868,25 @@ class C09Atomic(Monitor):
             ai = after.applied_instructions.get(vid)
             if ai is not None and dict(dataclasses.asdict(ai), instruction_type=type(ai).__name__) != wd:
                 yield Violation("C09", "applied_instructions records another instruction than the one selected", {"vehicle": vid})
+            winners.append(want)
+        # ---- the step's batch must behave like its instructions applied one at a time: recompute the step from the state the
+        # generators saw with single-instruction applications (each all-or-nothing by part 1), then HIVE's own vehicle updates
+        # and tick, and compare with what the step produced (modulo instance ids)
+        if winners:
+            from nrel.hive.state.simulation_state import simulation_state_ops
+            from nrel.hive.state.simulation_state.update.step_simulation_ops import apply_instructions, perform_vehicle_state_updates
+            from hv.canon import canon, first_diff
+
+            s_ = mid
+            for i in sorted(winners, key=lambda i: i.vehicle_id, reverse=True):  # StepSimulation applies in descending id order
+                s_ = apply_instructions(s_, env2, (i,))
+            with quiet():
+                s_ = simulation_state_ops.tick(perform_vehicle_state_updates(s_, env2))
+            a = canon({f: getattr(after, f) for f in STATE_FIELDS + ("sim_time",)})
+            b = canon({f: getattr(s_, f) for f in STATE_FIELDS + ("sim_time",)})
+            h.stats["step_differentials"] += 1
+            if a != b:
+                yield Violation("C09", "the step's result differs from applying its instructions one at a time", {"first_difference": first_diff(a, b), "instructions": [repr(i) for i in winners]})
 
 
 # ============================================================================ C16
